@@ -49,13 +49,21 @@ def extra_terms():
     return out
 
 
+def _leaves(depth, tier):
+    return cat.QUICK2_LEAVES if (tier == "quick" and depth >= 2) else None
+
+
+def _tier_of(case):
+    return "thorough" if "thorough" in case else "quick"
+
+
 def cases(tier, seed):
     out = [("extra",)]
     plan = [(0, None), (1, None), (2, None)]
     if tier == "thorough":
         plan.append((3, CORE))
     for depth, ctxs in plan:
-        n = sum(1 for _ in cat.catalogue(depth, None, ctxs))
+        n = sum(1 for _ in cat.catalogue(depth, _leaves(depth, tier), ctxs))
         for a in range(0, n, 30):
             out.append(("batch", depth, ctxs, a, min(n, a + 30), tier))
     return out
@@ -192,7 +200,7 @@ def run_case(case):
         return res
     _, depth, ctxs, a, b = case[:5]
     TIER[0] = case[5] if len(case) > 5 else "quick"
-    for label, term, spec in itertools.islice(cat.catalogue(depth, None, ctxs), a, b):
+    for label, term, spec in itertools.islice(cat.catalogue(depth, _leaves(depth, _tier_of(case)), ctxs), a, b):
         dicts = cat.dictionaries(spec)
         res["terms"] += 1
         res["failures"].extend(check_term(label, term, dicts, res, all_starts=(depth <= 1 or TIER[0] == "thorough")))
